@@ -411,7 +411,8 @@ Section FlaggedFlush.
     let res := f_flush fk id (arrange (nth_order os 0) (map fst st)) st in
     let rc' := mkRec k0 id dbs' in
     flag_inv fk (fst res) (mkSpec dbs' []) (apply_dops (snd res) W) (Some rc') /\
-    snd res = concat (map (gf id st) (arrange (nth_order os 0) (map fst st))).
+    snd res = concat (map (gf id st) (arrange (nth_order os 0) (map fst st))) /\
+    agrees_all fk rc' (apply_dops (snd res) W).
   Proof.
     intros I. pose proof I as [A B C R D Cl Q]. cbn zeta.
     set (ns := arrange (nth_order os 0) (map fst st)).
@@ -438,7 +439,7 @@ Section FlaggedFlush.
                           (match fget n st with Some false => dput fk [DIRTY] c | _ => c end)) = dget key c).
     { intros n c key G Hk. rewrite dget_dput_neq; auto.
       destruct (fget n st) as [[|]|]; auto. rewrite dget_dput_neq; auto. }
-    split.
+    split; [|split].
     - constructor; cbn [sp_dbs sp_doomed]; auto.
       + intros n. rewrite Gf, C'. destruct (wget n W) as [c|] eqn:G.
         * assert (En : nmem n ns = true) by (apply nmem_in, Inn, B; congruence). rewrite En. split; discriminate.
@@ -470,6 +471,16 @@ Section FlaggedFlush.
           -- apply bytes_eqb_eq in Ek; subst. rewrite !dget_dput_eq. reflexivity.
           -- apply beqb_false in Ek. rewrite (Usr n c0 key G); auto. rewrite dget_dput_neq; auto. eapply R; eauto.
     - reflexivity.
+    - intros n c G1. rewrite Gf in G1.
+      destruct (wget n W) as [c0|] eqn:G; [|discriminate]. inversion G1; subst c.
+      destruct (wget n (sp_dbs sp)) as [s0|] eqn:Gs.
+      2:{ apply C in Gs. assert (Y : wget n W <> None) by congruence. apply B in Y. contradiction. }
+      exists (dput fk (mark_of CLEAN id) s0).
+      cbn [r_id r_snap]. split; [apply dget_dput_eq|]. split.
+      + rewrite wget_with_marks, Gs. reflexivity.
+      + intros key. destruct (bytes_eqb fk key) eqn:Ek.
+        * apply bytes_eqb_eq in Ek; subst. rewrite !dget_dput_eq. reflexivity.
+        * apply beqb_false in Ek. rewrite (Usr n c0 key G); auto. rewrite dget_dput_neq; auto. eapply R; eauto.
   Qed.
 
   Lemma flagged_flush_correct st sp W last id os k0 :
@@ -480,7 +491,7 @@ Section FlaggedFlush.
     flag_inv fk (fst res) (mkSpec dbs' []) (apply_dops (snd res) W) (Some rc') /\
     strict_prefixes (Fl fk last) (snd res) W.
   Proof.
-    intros I Hid. destruct (flagged_flush_inv st sp W last id os k0 I) as [I' Eo]. cbn zeta in *.
+    intros I Hid. destruct (flagged_flush_inv st sp W last id os k0 I) as [I' [Eo _]]. cbn zeta in *.
     split; [exact I'|]. rewrite Eo. pose proof I as [A B C R D Cl Q].
     set (ns := arrange (nth_order os 0) (map fst st)).
     assert (ND : NoDup ns) by (apply arrange_nodup; auto).
@@ -651,6 +662,19 @@ Section FRun.
   Proof.
     intros Ha Hc L. destruct (frun_all h frun_init None frun_inv_init Ha Hc) as [last [_ [_ [_ Hs]]]].
     apply safe_consistent; auto.
+  Qed.
+
+  Theorem flagged_crash_consistent_expected h k l f m :
+    history_avoids fk h = true -> flush_ids_change None h = true ->
+    lists_world l (crash (fr_log (run_flagged fk h)) k) -> l <> [] ->
+    check_loop fk l (Some f) false = COk (Some m) ->
+    m = f /\
+    exists rc, In rc (fr_recs (run_flagged fk h)) /\ (r_pos rc <= k)%nat /\ m = mark_of CLEAN (r_id rc) /\
+      forall n c, wget n (crash (fr_log (run_flagged fk h)) k) = Some c ->
+        match wget n (r_snap rc) with Some s => db_eq c s | None => db_empty c end.
+  Proof.
+    intros Ha Hc L Hne E. destruct (frun_all h frun_init None frun_inv_init Ha Hc) as [last [_ [_ [_ Hs]]]].
+    eapply safe_consistent_expected; eauto.
   Qed.
 End FRun.
 
